@@ -48,8 +48,11 @@ var c13Txs = [][]apix.Op{
 		beginW, op("put", P("q"), "z", "M"), rollback},
 }
 
+var c13TxsNoGiant = []apix.Op{beginW, op("mkb", nil, "p", ""), {K: "fill", P: P("p"), Key: "k", V: "M", N: 9}, op("mkb", P("p"), "q", ""), {K: "fill", P: P("p", "q"), Key: "n", V: "M", N: 6}, op("put", P("p", "q"), "a", "s"), {K: "seqset", P: P("p"), N: 4}, commit}
+
 type c13Job struct {
 	PS     int   `json:"ps"`
+	Hist   int   `json:"hist,omitempty"`
 	C0     []int `json:"c0"`
 	C1     []int `json:"c1"`
 	C2     []int `json:"c2"`
@@ -58,16 +61,17 @@ type c13Job struct {
 }
 
 type c13Res struct {
-	Runs    int     `json:"runs"`
-	Opens   int     `json:"opens"`
-	Ops     int     `json:"ops"`
-	Fail    string  `json:"fail,omitempty"`
-	FailJob *c13Job `json:"fail_job,omitempty"`
-	Err     string  `json:"err,omitempty"`
-	EnvSkip int     `json:"env_skip,omitempty"` // runs repeated without Mlock because the kernel refused to lock memory
+	Runs     int     `json:"runs"`
+	Opens    int     `json:"opens"`
+	Ops      int     `json:"ops"`
+	Fail     string  `json:"fail,omitempty"`
+	FailJob  *c13Job `json:"fail_job,omitempty"`
+	Err      string  `json:"err,omitempty"`
+	Remapped int     `json:"remapped,omitempty"` // failing transactions whose failed call was the remap (database reopened afterwards)
+	EnvSkip  int     `json:"env_skip,omitempty"` // runs repeated without Mlock because the kernel refused to lock memory
 }
 
-func c13Run(ps int, m0, m1, m2 int, mlock bool, res *c13Res) string {
+func c13Run(ps int, hist int, m0, m1, m2 int, mlock bool, res *c13Res) string {
 	path := apix.TempPath(hx.WorkDir())
 	defer os.Remove(path)
 	c0 := optCfg(m0&^128, ps, mlock)
@@ -102,7 +106,13 @@ func c13Run(ps int, m0, m1, m2 int, mlock bool, res *c13Res) string {
 		}
 		return ""
 	}
-	if msg := do(c13Txs[0]); msg != "" {
+	first := c13Txs[0]
+	if hist == 1 {
+		// second history: without the giant-key bucket (different file sizes: among other things the map is exactly full
+		// when the failing transaction after a reopen starts, so that its first I/O call is the remap)
+		first = c13TxsNoGiant
+	}
+	if msg := do(first); msg != "" {
 		return msg
 	}
 	for i, m := range []int{m1, m2} {
@@ -118,6 +128,17 @@ func c13Run(ps int, m0, m1, m2 int, mlock bool, res *c13Res) string {
 		// the first transaction after the reopen fails at its first I/O call (physical rollback under the new options)
 		if msg := do([]apix.Op{beginW, op("put", P("p"), "failed", "M"), {K: "commitF", N: 0, V: "fail"}}); msg != "" {
 			return fmt.Sprintf("failing transaction after reopen %d with %s: %s", i+1, c.String(), msg)
+		}
+		if x.Unmapped {
+			// the first I/O call of that transaction was the remap (the map happened to be exactly full) and it is the one
+			// that failed: as documented, the handle reports ErrInvalidMapping until the database is reopened - reopen
+			// with the same options and go on (the old build of this check reported that state as a violation at page
+			// size 4096: a false alarm of the harness, found by a thorough run)
+			res.Opens++
+			res.Remapped++
+			if msg := do([]apix.Op{{K: "reopen", Cfg: &c}}); msg != "" {
+				return fmt.Sprintf("reopen %d with %s after a failed remap: %s", i+1, c.String(), msg)
+			}
 		}
 		if msg := do(c13Txs[i+1]); msg != "" {
 			return fmt.Sprintf("after reopen %d with %s: %s", i+1, c.String(), msg)
@@ -144,12 +165,12 @@ func c13Work(job c13Job) c13Res {
 	for _, a := range job.C0 {
 		for _, b := range job.C1 {
 			for _, c := range job.C2 {
-				msg := c13Run(job.PS, a, b, c, job.Mlock, &res)
+				msg := c13Run(job.PS, job.Hist, a, b, c, job.Mlock, &res)
 				if msg != "" && c13EnvErr(msg) {
 					// the kernel refused a resource (locked memory, address space, tmpfs space, descriptors): a limit of the
 					// machine, not a property of the code; the same schedule is run again without Mlock and the incident counted
 					res.EnvSkip++
-					msg = c13Run(job.PS, a, b, c, false, &res)
+					msg = c13Run(job.PS, job.Hist, a, b, c, false, &res)
 					if msg != "" && c13EnvErr(msg) {
 						res.Err = "resource failure of the machine, twice: " + msg
 						return res
@@ -158,7 +179,7 @@ func c13Work(job c13Job) c13Res {
 				if msg != "" {
 					res.Fail = fmt.Sprintf("page size %d, options at creation %s, at first reopen %s, at second reopen %s: %s", job.PS,
 						optCfg(a&^128, job.PS, job.Mlock).String(), optCfg(b, job.PS, job.Mlock).String(), optCfg(c, job.PS, job.Mlock).String(), msg)
-					res.FailJob = &c13Job{PS: job.PS, C0: []int{a}, C1: []int{b}, C2: []int{c}, Mlock: job.Mlock, Replay: true}
+					res.FailJob = &c13Job{PS: job.PS, Hist: job.Hist, C0: []int{a}, C1: []int{b}, C2: []int{c}, Mlock: job.Mlock, Replay: true}
 					return res
 				}
 			}
@@ -224,10 +245,19 @@ func C13(tier string) int {
 		sizes = []int{1024, 4096}
 		c0s, c2s = all[:128], few(2)
 	}
-	for _, ps := range sizes {
-		for _, a := range c0s {
-			for lo := 0; lo < 256; lo += 16 {
-				meta = append(meta, c13Job{PS: ps, C0: []int{a}, C1: all[lo : lo+16], C2: c2s, Mlock: mlock})
+	hists := []int{0}
+	if tier == "thorough" {
+		hists = []int{0, 1}
+	}
+	for _, h := range hists {
+		for _, ps := range sizes {
+			for _, a := range c0s {
+				if h == 1 && a >= 16 {
+					continue // second history: creation options restricted to the first four settings
+				}
+				for lo := 0; lo < 256; lo += 16 {
+					meta = append(meta, c13Job{PS: ps, Hist: h, C0: []int{a}, C1: all[lo : lo+16], C2: c2s, Mlock: mlock})
+				}
 			}
 		}
 	}
@@ -239,7 +269,7 @@ func C13(tier string) int {
 	pool := par.NewPool(Workers(), "worker", "c13")
 	pool.Timeout = 20 * time.Minute
 	defer pool.Close()
-	runs, opens, ops, envSkips := 0, 0, 0, 0
+	runs, opens, ops, envSkips, remapped := 0, 0, 0, 0, 0
 	var viols, errs []string
 	deadline := start.Add(100 * time.Second)
 	if tier == "thorough" {
@@ -261,6 +291,7 @@ func C13(tier string) int {
 		opens += res.Opens
 		ops += res.Ops
 		envSkips += res.EnvSkip
+		remapped += res.Remapped
 		if res.Err != "" {
 			errs = append(errs, res.Err)
 		}
@@ -274,10 +305,10 @@ func C13(tier string) int {
 	_ = deadline
 	cov := map[string]interface{}{
 		"states": runs, "transitions": ops, "traces_validated_against_impl": ops, "evaluations": runs, "distinct_nontrivial": runs,
-		"rule":          "exhaustive enumeration of option schedules for one history with two reopen points (create + fill + nested bucket with content + sequence; reopen; a transaction that touches only the nested bucket and outgrows a 32 KiB map, then overwrites/deletes in the parent; reopen; nested bucket delete, drain, sequence, a rolled-back transaction; the first transaction after each reopen fails at its first I/O call): every assignment of {freelist backend, NoFreelistSync, NoGrowSync, InitialMmapSize 0/256 KiB, Mlock, StrictMode, PreLoadFreelist, wrong page-size option} at the first reopen (256) x the assignments listed for creation and for the second reopen (see schedule_sets), with a read-only open (with and without preloading) between the read-write opens and at the end; every API result and every dump is compared with the reference model, and after every open and commit the loaded free list must equal the decoder's set of unreachable pages and page accounting must be exact",
+		"rule":          "exhaustive enumeration of option schedules for a history with two reopen points (thorough: a second history without the giant-key bucket, creation options restricted to the first four settings) (create + fill + nested bucket with content + sequence; reopen; a transaction that touches only the nested bucket and outgrows a 32 KiB map, then overwrites/deletes in the parent; reopen; nested bucket delete, drain, sequence, a rolled-back transaction; the first transaction after each reopen fails at its first I/O call): every assignment of {freelist backend, NoFreelistSync, NoGrowSync, InitialMmapSize 0/256 KiB, Mlock, StrictMode, PreLoadFreelist, wrong page-size option} at the first reopen (256) x the assignments listed for creation and for the second reopen (see schedule_sets), with a read-only open (with and without preloading) between the read-write opens and at the end; every API result and every dump is compared with the reference model, and after every open and commit the loaded free list must equal the decoder's set of unreachable pages and page accounting must be exact",
 		"samples":       []string{"create {array}, reopen {hashmap,nfs,ngs,imm=256K,strict,preload,psopt=8192}, reopen {hashmap}", "create {nfs}, read-only open without preload, reopen {array} (freelist flush commit), ..."},
 		"schedule_sets": map[string]int{"creation": len(c0s), "first_reopen": 256, "second_reopen": len(c2s), "page_sizes": len(sizes)},
-		"exhaustive":    len(errs) == 0 && skipped == 0, "harness_errors": errs, "opens": opens, "mlock_available": mlock, "runs_repeated_without_mlock_after_kernel_refusal": envSkips,
+		"exhaustive":    len(errs) == 0 && skipped == 0, "harness_errors": errs, "opens": opens, "mlock_available": mlock, "runs_repeated_without_mlock_after_kernel_refusal": envSkips, "failing_transactions_that_failed_in_the_remap": remapped,
 	}
 	ev := &evid.Evidence{PropertyID: "C13", Tier: tier, Level: "model_checking", Coverage: cov, Violations: len(viols),
 		Assumptions: []string{"one fixed history; the option space, not the history space, is what this check enumerates (histories are covered by C04/C07 under several configurations)"}}
